@@ -254,9 +254,15 @@ def run_world(ctx, case):
 
     # (a) the whole record through js.convert_regions
     js_regions = None
+    # a third of the worlds are converted in a fungal run: what reaches the drawing must not depend on the taxon
+    taxon = "fungi" if length % 3 == 0 else "bacteria"
+    update_config({"taxon": taxon})
     try:
         js_regions = js.convert_regions(record, _STATE["options"], {})
         ctx.count("op:convert_regions")
+        ctx.count(f"taxon:{taxon}")
+        if taxon == "fungi" and circular and any(r.crosses_origin() for r in regions):
+            ctx.count("class:origin-region-in-fungal-run")
     except Exception as err:  # pylint: disable=broad-except
         culprit = None
         for region, frame, feats, _genes in described:
